@@ -333,11 +333,13 @@ func main() {
 	casesDir := flag.String("cases", "/verif/build/c06/cases", "directory for the model case files")
 	watchdog := flag.Int("watchdog", 60, "seconds before a trial counts as deadlocked")
 	poolRounds := flag.Int("pool", 10, "rounds of the pooled-side-encoder stream (one Canonical handle, >= 8 x GOMAXPROCS goroutines each)")
+	nakedRounds := flag.Int("naked", 10, "rounds of the naked-decode stream (native timestamps into interface{}, one shared Handle)")
+	poolStateRounds := flag.Int("poolstate", 15, "rounds of the pooled-side-encoder state stream (aborted operations, then acyclic values sharing the pointers)")
 	caseTrials := flag.Int("casetrials", 1<<30, "only the first N trials are written as model cases")
 	flag.Parse()
 	seed := vh.SeedFromEnv()
 	r := vh.NewRng(seed)
-	sum := vh.NewSummary("trial = fresh Handle + fresh TypeInfos + fresh reflect.StructOf types, 2..64 goroutines released by a barrier, each running its own enc/dec ops over bytes and io; non-trivial = at least two goroutines use a common fresh type (first-use race possible); distinct by (format, goroutines bucket, types, shared types, transports, cache sizes bucket). Each trial also yields one model case per non-empty published cache slice (9 per handle). pool: Canonical handle x key kind (yielding Text/Binary marshaler, struct, array, interface{} holding struct) x format, >= 8 x GOMAXPROCS goroutines each re-encoding its own map, bytes compared with the sequential bytes; distinct by (format, key kind, transport)")
+	sum := vh.NewSummary("trial = fresh Handle + fresh TypeInfos + fresh reflect.StructOf types, 2..64 goroutines released by a barrier, each running its own enc/dec ops over bytes and io; non-trivial = at least two goroutines use a common fresh type (first-use race possible); distinct by (format, goroutines bucket, types, shared types, transports, cache sizes bucket). Each trial also yields one model case per non-empty published cache slice (9 per handle). pool: Canonical handle x key kind (yielding Text/Binary marshaler, struct, array, interface{} holding struct) x format, >= 8 x GOMAXPROCS goroutines each re-encoding its own map, bytes compared with the sequential bytes; distinct by (format, key kind, transport). naked: one shared Handle, >= 4 x GOMAXPROCS goroutines each decoding its own stream with native timestamps/strings/ints into interface{} (slice, map, nested), value compared with the same bytes decoded alone; distinct by (format, transport, has native times). poolstate: Canonical+CheckCircularRef Handle, operations that abort inside an out-of-band map key (cycle, failing marshaler under a pointer), then the same pointers acyclic from several goroutines, bytes compared with a fresh Handle; non-trivial = some operation aborted; distinct by (format, abort kind)")
 	cv := vh.NewCases(*casesDir, "From Coq Require Import List NArith.\nFrom Verif Require Import C06.Model C06.Corr.\nImport ListNotations.", "case", "mismatches", 40)
 	caseID := 0
 	gChoices := []int{2, 3, 4, 8, 16, 32, 64}
@@ -567,6 +569,8 @@ trials:
 	}
 	cv.Close()
 	poolStream(r.Fork(), *poolRounds, *watchdog, sum)
+	nakedStream(r.Fork(), *nakedRounds, *watchdog, sum)
+	poolStateStream(r.Fork(), *poolStateRounds, *watchdog, sum)
 	sum.Print()
 	os.Stdout.Sync()
 }
